@@ -55,6 +55,7 @@ import PyhamModel.Lemmas.HistoryProfile
 import PyhamModel.Lemmas.HistoryInvariance
 import PyhamModel.Lemmas.FilterAbsent
 import PyhamModel.Lemmas.Interleave
+import PyhamModel.Lemmas.LeafProfile
 namespace Pyham.Props
 open Pyham
 
@@ -395,6 +396,44 @@ theorem C14_profile_same_for_same_histories (D D' : Dataset) (hc : D.Consistent)
       ∀ i u, (i :: u) ∈ D.T.allTaxa → D.T.isInternalAt (i :: u) = true →
         profileFullAt H (i :: u) = profileFullAt H' (i :: u) :=
   Pyham.C14_profile_same_for_same_histories D D' hc hc' hT hlen hs
+
+/-- **the profile entry of a species node is a function of the species sections and the histories**: number of genes = genes
+    the species section declares, gained = declared genes that no family references (+ families that start there),
+    duplicated / duplication events = those of the histories on the branch, retained and lost by the balance equations
+    (with `C09_profile_from_histories`: every non-root entry of the profile) -/
+theorem C09_leaf_profile_from_dataset (D : Dataset) (hc : D.Consistent) :
+    ∃ H, load D.T D.nm D.file = .ok H ∧ ∀ i u, (i :: u) ∈ H.tree.allTaxa → D.T.isLeafAt (i :: u) = true →
+      ∃ ret lost,
+        profileFullAt H (i :: u) =
+          { tx := i :: u, nbr := (D.declaredAt (i :: u)).length,
+            dupl := some ((D.fams.map fun f => copiesInto (i :: u) f.1 f.2).sum),
+            lost := some lost,
+            gain := some ((D.fams.filter fun f => f.1 == i :: u).length + (D.unreferencedAt (i :: u)).length),
+            retained := some ret,
+            duplication := some ((D.fams.map fun f => copiesInto (i :: u) f.1 f.2 - eventsInto (i :: u) f.1 f.2).sum),
+            nbrEvents := some ((D.fams.map fun f => copiesInto (i :: u) f.1 f.2 - eventsInto (i :: u) f.1 f.2).sum +
+              lost + ((D.fams.filter fun f => f.1 == i :: u).length + (D.unreferencedAt (i :: u)).length)) } ∧
+        (D.declaredAt (i :: u)).length =
+          ret + (D.fams.map fun f => copiesInto (i :: u) f.1 f.2).sum +
+            ((D.fams.filter fun f => f.1 == i :: u).length + (D.unreferencedAt (i :: u)).length) ∧
+        (D.declaredAt (i :: u)).length + lost =
+          (D.fams.map fun f => lineagesAt u f.1 f.2).sum +
+            ((D.fams.filter fun f => f.1 == i :: u).length + (D.unreferencedAt (i :: u)).length) +
+            (D.fams.map fun f => copiesInto (i :: u) f.1 f.2 - eventsInto (i :: u) f.1 f.2).sum :=
+  Pyham.C09_leaf_profile_from_dataset D hc
+
+/-- **C14 for the tree profile at the species nodes**: same histories (any spelling) and species sections that declare the
+    same genes for every species, in any order (`declaredAt` resolves the species names against the tree under the dataset's
+    own naming mode) -- same profile entry at every leaf -/
+theorem C14_leaf_profile_same_for_same_histories (D D' : Dataset) (hc : D.Consistent) (hc' : D'.Consistent)
+    (hT : D.T = D'.T) (hlen : D.fams.length = D'.fams.length)
+    (hs : ∀ i (h1 : i < D.fams.length) (h2 : i < D'.fams.length),
+        (D.fams[i]).1 = (D'.fams[i]).1 ∧ SameL (D.fams[i]).2 (D'.fams[i]).2)
+    (hdecl : ∀ t, (D.declaredAt t).Perm (D'.declaredAt t)) :
+    ∃ H H', load D.T D.nm D.file = .ok H ∧ load D'.T D'.nm D'.file = .ok H' ∧
+      ∀ i u, (i :: u) ∈ D.T.allTaxa → D.T.isLeafAt (i :: u) = true →
+        profileFullAt H (i :: u) = profileFullAt H' (i :: u) :=
+  Pyham.C14_leaf_profile_same_for_same_histories D D' hc hc' hT hlen hs hdecl
 
 /-- ... and family by family, for whatever realises a well-formed history -/
 theorem C10_family_profile_is_the_history (T : STree) (q : Taxon) (l : SL) (top : Node) (hr : Realises q l top)
